@@ -117,3 +117,44 @@ theorem measure_step {c : Cfg} {s s' : State} {e : Ev} (hs : step c s e = some s
     subst hs; simp only [measure, hg.1]; omega
 
 end Grog.ErrChan
+
+namespace Grog.ErrChan
+
+/-- the blocking protocol with too small a channel: all succeeding producers finish, `cap` failing
+    producers fill the buffer — a reachable state -/
+theorem reach_full {c : Cfg} (hd : c.drop = false) (hlt : c.cap < c.nFail) :
+    Reach c { okTodo := 0, failTodo := c.nFail - c.cap, buf := c.cap, cons := .waiting } := by
+  have hA : ∀ k, k ≤ c.nOk → Reach c { okTodo := c.nOk - k, failTodo := c.nFail, buf := 0, cons := .waiting } := by
+    intro k
+    induction k with
+    | zero => intro _; exact Reach.init
+    | succ k ih =>
+      intro hk
+      have := ih (by omega)
+      refine Reach.step this (e := .okDone) ?_
+      simp only [step]
+      have : 0 < c.nOk - k := by omega
+      simp [this]
+      omega
+  have hB : ∀ j, j ≤ c.cap → Reach c { okTodo := 0, failTodo := c.nFail - j, buf := j, cons := .waiting } := by
+    intro j
+    induction j with
+    | zero => intro _; have := hA c.nOk (Nat.le_refl _); simpa using this
+    | succ j ih =>
+      intro hj
+      have := ih (by omega)
+      refine Reach.step this (e := .failSend) ?_
+      simp only [step]
+      have h1 : 0 < c.nFail - j := by omega
+      have h2 : j < c.cap := by omega
+      simp [h1, h2]
+      omega
+  exact hB c.cap (Nat.le_refl _)
+
+theorem stuck_full {c : Cfg} (hd : c.drop = false) (hlt : c.cap < c.nFail) :
+    stuck c { okTodo := 0, failTodo := c.nFail - c.cap, buf := c.cap, cons := .waiting } = true := by
+  have h1 : 0 < c.nFail - c.cap := by omega
+  have h2 : c.nFail - c.cap ≠ 0 := by omega
+  simp [stuck, allEvents, step, h1, h2, hd]
+
+end Grog.ErrChan
